@@ -9,6 +9,25 @@ public API (keys.sign / keys.verify / Signature.parse_bytes / encoding.der_encod
   parse <sighex>  -> "<r> <s> <hash_type> <as_der_encoded hex>" | ERR
   nonce <d> <h1hex> -> fastecdsa RFC6979 (prehashed) nonce, the generator Signature.create uses
   derenc <r> <s>  -> encoding.der_encode_sig
+
+  signrand <d> <msghex> <ht> <form>  keys.sign(.., use_rfc6979=False) twice (the non-default random-nonce path)
+      -> "<r> <s> <der hex> <k>;<r> <s> <der hex> <k>"   (no model answer: judged by the independent signer only)
+
+Sessions — many calls in THIS process / on ONE object (module-level state and object attributes persist):
+  signseq <mode> <d:msghex:k|-:ht:form> ...      every step is one keys.sign call, in order; mode r = the same
+      Key / HDKey object is reused for all steps with the same key and form, f = a fresh one per step
+      -> the answers of the steps (as for sign, signed once) joined by ';'
+  vseq <mode> <src> <step> ...                   one Signature object, then one verify call per step on it
+      src  = S:d:msghex:k|-:ht:form   keys.sign(...)            C:... Signature.create(...)
+             P:<how>:<sighex>:<keyarg|->    how = b parse_bytes / x parse_hex / a parse(bytes) / A parse(str)
+             V:<r>:<s>:<dghex|*>:<keyarg|-> Signature(r, s, txid=, public_key=)
+             N:<b|h>:<sighex>               no object: every step hands the encoded signature to keys.verify
+                                            (a step may name its own signature in a 4th field ":<sighex>")
+      step = <entry><dgform>:<dghex|*>:<keyarg|*>   entry F keys.verify(txid, obj, key) / M obj.verify(txid, key);
+             dgform b / h / U; '*' = the argument is omitted
+      keyarg = K<sec hex> Key(bytes) / H HDKey(bytes) / B bytes / X hex text / Y upper-case hex text / T (x, y) tuple /
+               V<decimal d> private Key / W<decimal d> private HDKey;  mode r reuses key objects between steps
+      -> "ERR" when the object cannot be built, else the verdicts 1 | 0 | ERR joined by ','
 """
 import sys, os, logging
 sys.path.insert(0, os.path.dirname(os.path.abspath(__file__)))
@@ -43,8 +62,142 @@ def one_sign(d, msg, k, ht, form):
     return out
 
 
+def sign_step(tok, pool):
+    d, msg, k, ht, form = tok.split(':')
+    d, msg, k, ht = int(d), unhx(msg), (None if k == '-' else int(k)), int(ht)
+    txid = msg if form[0] == 'b' else msg.hex()
+    try:
+        if pool is not None and form[1] != 'S':
+            if (d, form[1]) not in pool:
+                pool[(d, form[1])] = mkpriv(d, form[1])
+            key = pool[(d, form[1])]
+        else:
+            key = mkpriv(d, form[1])
+        sg = sign(txid, key, k=k, hash_type=ht)
+        out = '%d %d %s' % (sg.r, sg.s, hx(sg.as_der_encoded()))
+        if sg.bytes() != sg.r.to_bytes(32, 'big') + sg.s.to_bytes(32, 'big'):
+            out += ' RAWFORM'
+        if k and sg.k != k:
+            out += ' BADK'
+        return out, sg
+    except Exception:
+        return 'ERR', None
+
+
+class NoCall(Exception):
+    pass
+
+
+def key_arg(tok, pool):
+    """the public-key argument of a step; NoCall when the caller cannot even build it"""
+    if tok in ('*', '-'):
+        return None
+    if pool is not None and tok in pool:
+        return pool[tok]
+    f, body = tok[0], tok[1:]
+    try:
+        if f == 'K':
+            v = Key(bytes.fromhex(body))
+        elif f == 'H':
+            v = HDKey(bytes.fromhex(body))
+        elif f == 'B':
+            v = bytes.fromhex(body)
+        elif f == 'X':
+            v = body
+        elif f == 'Y':
+            v = body.upper()
+        elif f == 'T':
+            v = tuple(Key(bytes.fromhex(body)).public_point())
+        elif f == 'V':
+            v = Key('%064x' % int(body))
+        elif f == 'W':
+            v = HDKey('%064x' % int(body))
+        else:
+            raise ValueError(tok)
+    except Exception:
+        raise NoCall()
+    if pool is not None and f in 'KHVW':
+        pool[tok] = v
+    return v
+
+
+def dg_arg(form, tok):
+    if tok == '*':
+        return None
+    b = unhx(tok)
+    return b if form == 'b' else b.hex().upper() if form == 'U' else b.hex()
+
+
+def verdict(r):
+    return '1' if r is True else '0' if r is False else 'ODD %r' % (r,)
+
+
+def vseq(t):
+    mode, src, steps = t[1], t[2].split(':'), t[3:]
+    pool = {} if mode == 'r' else None
+    kind = src[0]
+    obj = None
+    try:
+        if kind in 'SC':
+            d, msg, k, ht, form = src[1:]
+            d, msg, k, ht = int(d), unhx(msg), (None if k == '-' else int(k)), int(ht)
+            txid = msg if form[0] == 'b' else msg.hex()
+            fn = sign if kind == 'S' else Signature.create
+            obj = fn(txid, mkpriv(d, form[1]), k=k, hash_type=ht)
+        elif kind == 'P':
+            how, sg, ka = src[1], unhx(src[2]), key_arg(src[3], pool)
+            obj = {'b': lambda: Signature.parse_bytes(sg, ka), 'x': lambda: Signature.parse_hex(sg.hex(), ka),
+                   'a': lambda: Signature.parse(sg, ka), 'A': lambda: Signature.parse(sg.hex(), ka)}[how]()
+        elif kind == 'V':
+            obj = Signature(int(src[1]), int(src[2]), txid=(None if src[3] == '*' else unhx(src[3])),
+                            public_key=key_arg(src[4], pool))
+        elif kind == 'N':
+            sg = unhx(src[2]) if src[1] == 'b' else unhx(src[2]).hex()
+        else:
+            return 'BADREQ'
+    except Exception:
+        return 'ERR'
+    if kind != 'N' and not isinstance(obj, Signature):
+        return 'ERR'
+    out = []
+    for st in steps:
+        head, dg, ka = st.split(':')[:3]
+        try:
+            key = key_arg(ka, pool)
+            txid = dg_arg(head[1], dg)
+            if kind == 'N':
+                own = st.split(':')[3:]
+                sg_i = sg if not own else unhx(own[0]) if src[1] == 'b' else unhx(own[0]).hex()
+                r = verify(txid, sg_i, key)
+            elif head[0] == 'F':
+                r = verify(txid, obj) if key is None else verify(txid, obj, key)
+            else:
+                r = obj.verify(txid, key)
+            out.append(verdict(r))
+        except RecursionError:
+            raise
+        except Exception:
+            out.append('ERR')
+    return ','.join(out)
+
+
 def dispatch(t):
     c = t[0]
+    if c == 'signseq':
+        pool = {} if t[1] == 'r' else None
+        return ';'.join(sign_step(tok, pool)[0] for tok in t[2:])
+    if c == 'vseq':
+        return vseq(t)
+    if c == 'signrand':
+        d, msg, ht, form = int(t[1]), unhx(t[2]), int(t[3]), t[4]
+        outs = []
+        try:
+            for _ in range(2):
+                sg = sign(msg if form[0] == 'b' else msg.hex(), mkpriv(d, form[1]), use_rfc6979=False, hash_type=ht)
+                outs.append('%d %d %s %d' % (sg.r, sg.s, hx(sg.as_der_encoded()), sg.k))
+        except Exception:
+            return 'ERR'
+        return ';'.join(outs)
     if c == 'sign':
         d, msg, k, ht, form = int(t[1]), unhx(t[2]), (None if t[3] == '-' else int(t[3])), int(t[4]), t[5]
         try:
@@ -59,7 +212,7 @@ def dispatch(t):
     if c == 'verify':
         dg, sg, pk, form = unhx(t[1]), unhx(t[2]), unhx(t[3]), t[4]
         try:
-            key = Key(pk) if form[2] == 'K' else Key(pk, strict=False) if form[2] == 'L' else pk
+            key = Key(pk) if form[2] == 'K' else Key(pk, strict=False) if form[2] == 'L' else pk.hex() if form[2] == 'X' else pk
             r = verify(dg if form[0] == 'b' else dg.hex(), sg if form[1] == 'b' else sg.hex(), key)
         except Exception:
             return 'ERR'
